@@ -57,8 +57,20 @@ def adversarial(tape):
                                 tape.draw(3, "bform")])
                         elif k == 3:
                             a = ARR[tape.draw(len(ARR), "av")]
-                            if tape.chance(0.5, "acreate"):
+                            a2 = ARR[tape.draw(len(ARR), "av2")]
+                            a3 = ARR[tape.draw(len(ARR), "av3")]
+                            aform = tape.draw(5, "aform")
+                            if aform == 0:
                                 cb(a, "`<builtin>array`(3)")
+                            elif aform == 1:
+                                # array sum with a (possibly complex) scalar factor: the kind of the sum
+                                # must not depend on which term happens to be known first
+                                cb(a, "%s + %s*%s" % (a2, s, a3))
+                            elif aform == 2:
+                                from pymbolic import var as _v
+                                cb(a, _v(a2) + 1j * _v(a3))
+                            elif aform == 3:
+                                cb(a, "%s + %s" % (a2, a3))
                             else:
                                 cb("%s[%s]" % (a, ["i", "j"][tape.draw(2)]), "%s + 1" % s,
                                    loops=[(["i", "j"][tape.draw(2)], 0, 3)])
